@@ -29,6 +29,9 @@ fn explore() {
     let phase = arg_or("phase", "ready");
     let threads = arg_u64("threads", 16) as usize;
     let out = arg("out").unwrap();
+    // deep-index run: the counterparty side starts after `base` honest cycles
+    let base = arg_u64("base", 0);
+    BASE.store(base, std::sync::atomic::Ordering::Relaxed);
     let max_states = arg_u64("max-states", 2_000_000);
     std::fs::create_dir_all(&out).unwrap();
 
@@ -91,7 +94,7 @@ fn explore() {
                 let dpre = comp_digests(&pre, ctx.fx.network, &ctx.fx);
                 let kpre = state_key(&dpre, pre.phase);
                 let apre = project(&pre, nmax);
-                let expand = apre["nh"].as_u64().unwrap() <= nmax && apre["nc"].as_u64().unwrap() <= nmax;
+                let expand = apre["nh"].as_u64().unwrap() <= nmax && apre["nc"].as_u64().unwrap() <= base + nmax;
                 // is the running signer in this state equal to one restored from its store?
                 ctx.restore(&pre);
                 let r0 = restart_view(&ctx).0["equal"] == true;
